@@ -544,7 +544,7 @@ var replayMu sync.Mutex
 // a counterexample that depends on it may need several attempts.
 func nativeReplay(path string) (bool, string) {
 	var out string
-	for try := 0; try < 8; try++ {
+	for try := 0; try < 16; try++ {
 		ok, o := nativeReplayOnce(path)
 		out = o
 		if ok {
